@@ -96,6 +96,10 @@ def gen(ctx):
             # the same integer matrix at an extreme magnitude: costs in the thousands (exp(-cost) underflows) or around 1e-17
             # (exp(-cost) rounds to 1); order and ties of the costs are unchanged, so the same frames are the most confident
             cases.append((rng.choice(['x300', 'x1e-17']), M, labels, blank))
+        if rng.random() < 0.3 and labels and blank not in labels and C ** T <= 20000:
+            # the same integer matrix handed over as float32 (what the network produces), plain or with every finite entry raised by
+            # 2^23: each entry is still exact in float32, but a running sum kept in float32 loses the unit differences after 2-3 frames
+            cases.append((rng.choice(['f32', 'f32+2^23', 'f32+2^23']), M, labels, blank))
     return cases
 
 
@@ -106,7 +110,7 @@ def enc(M):
 def run(ctx):
     from pero_ocr.core import force_alignment as fa
     ctx.rule = ('integer / +inf cost matrices T<=8, C<=5, any blank index, labels of length 1..T+1 with immediate repeats, '
-                'blank among labels, empty labels, many ties; the same matrices scaled to extreme magnitudes (x300, x1e-17) for the position clause; non-trivial = alignable, >1 admissible path and T > len(labels)')
+                'blank among labels, empty labels, many ties; the same matrices scaled to extreme magnitudes (x300, x1e-17) for the position clause and as float32 matrices (plain / every entry + 2^23) for validity and optimality; non-trivial = alignable, >1 admissible path and T > len(labels)')
     ctx.assumptions += ['NumPy float arithmetic on small integers and inf is exact (D1)',
                         'numba-compiled compute_update behaves as its Python body (the jitted version is what runs)']
     cases = gen(ctx)
@@ -133,6 +137,30 @@ def run(ctx):
                         ctx.violation('positions:extreme-costs', 'align_text positions are not the most confident aligned frame (costs at an extreme magnitude)', inp, pos)
                 except Exception as e:
                     ctx.violation('positions-raises:' + type(e).__name__, 'force_align raised %r' % (e,), inp)
+            continue
+        if kind.startswith('f32'):
+            off = 2 ** 23 if kind.endswith('2^23') else 0
+            A = np.array([[x + off if x != INF else INF for x in row] for row in M], dtype=np.float32)
+            inp['dtype'] = 'float32'
+            inp['offset'] = off
+            try:
+                got32 = [int(x) for x in fa.force_align(A, list(labels), blank)]
+            except ValueError:
+                got32 = 'failure'
+            except Exception as e:
+                ctx.violation('raises:float32:' + type(e).__name__, 'force_align raised %r on a float32 matrix' % (e,), inp)
+                continue
+            best = brute(M, labels, blank)
+            if isinstance(got32, list):
+                if len(got32) != len(M) or ref_collapse(got32, blank) != list(labels):
+                    ctx.violation('invalid:float32', 'force_align result does not collapse to the labels (float32 costs)', inp, got32)
+                else:
+                    c = sum(M[t][got32[t]] for t in range(len(M)))
+                    if best is None or c != best:
+                        ctx.violation('suboptimal:float32', 'force_align result is not a minimum-cost alignment (float32 cost matrix; '
+                                      'every entry and every path sum is exactly representable in float64)', inp, got32, best)
+            elif best is not None:
+                ctx.violation('false-failure:float32', 'force_align reports failure although a finite-cost alignment exists (float32 costs)', inp, got32, best)
             continue
         got = call_align(fa, M, labels, blank)
         T, C = len(M), len(M[0])
